@@ -342,6 +342,53 @@ func TestCheck(t *testing.T) {
 	evals, values := 0, 0
 	var outcomes vlib.Distinct
 	var samples []any
+
+	// A chunked body ends with its terminator: a reader that has reported the end must keep reporting it and must
+	// not touch what follows on the stream (the next frame, or another body).
+	for _, sz := range []int{0, 1, 5, 65535, 65536} {
+		for _, follow := range []string{"frame", "body", "zeros"} {
+			payload := bytes.Repeat([]byte{0xA5}, sz)
+			var body bytes.Buffer
+			w := litefs.VerifChunkWriter(&body)
+			_, _ = w.Write(payload)
+			_ = w.Close()
+			var next []byte
+			switch follow {
+			case "frame":
+				var fb bytes.Buffer
+				_ = litefs.WriteStreamFrame(&fb, &litefs.HeartbeatStreamFrame{Timestamp: 0x0102030405060708})
+				next = fb.Bytes()
+			case "body":
+				var b2 bytes.Buffer
+				w2 := litefs.VerifChunkWriter(&b2)
+				_, _ = w2.Write([]byte("second body"))
+				_ = w2.Close()
+				next = b2.Bytes()
+			default:
+				next = make([]byte, 16)
+			}
+			under := bytes.NewReader(append(append([]byte{}, body.Bytes()...), next...))
+			cr := litefs.VerifChunkReader(under)
+			got, err := io.ReadAll(cr)
+			evals++
+			name := fmt.Sprintf("chunk-end/%d/%s", sz, follow)
+			if err != nil || !bytes.Equal(got, payload) {
+				run.Violation("roundtrip-differs/chunk-end", fmt.Sprintf("%s: body of %d bytes read back as %d bytes, err=%v", name, sz, len(got), err), map[string]any{"codec": name})
+				continue
+			}
+			for i := 0; i < 3; i++ {
+				buf := make([]byte, 32)
+				if n, err := cr.Read(buf); n != 0 || err != io.EOF {
+					run.Violation("read-after-end/chunk", fmt.Sprintf("%s: Read number %d after the end of the body returned n=%d err=%v (want 0, EOF): the reader went on into the data that follows the body", name, i+1, n, err), map[string]any{"codec": name})
+					break
+				}
+			}
+			if rest, _ := io.ReadAll(under); !bytes.Equal(rest, next) {
+				run.Violation("consumed-past-end/chunk", fmt.Sprintf("%s: after the body was read %d of the %d bytes that follow it are left on the stream", name, len(rest), len(next)), map[string]any{"codec": name})
+			}
+			outcomes.Add("chunk-end/" + follow + "=ok")
+		}
+	}
 	for _, c := range codecs {
 		enc, err := c.encode()
 		if err != nil {
